@@ -91,10 +91,30 @@ def min_cover_table(shape):
 # ----------------------------------------------------------------------------- check of one case
 
 
-def check_case(torch, fn, shape, start, end, f, valid):
+def check_case(torch, fn, shape, start, end, f, valid, strided=False):
     """returns (list of msgs, npieces, signature)"""
     msgs = []
     n = prod(shape) if len(shape) else 1
+    if strided:
+        # a flat shard that is a non-contiguous view (every second element of a buffer): pieces must still be views of it
+        buf = torch.zeros(2 * n, dtype=torch.float32)
+        buf[::2] = torch.arange(n, dtype=torch.float32)
+        shard = buf[::2].narrow(0, start, end - start)
+        out = fn(shard, torch.Size(shape), start, end)
+        pos = start
+        for i, t in enumerate(out):
+            k = t.numel()
+            if t.untyped_storage().data_ptr() != buf.untyped_storage().data_ptr():
+                msgs.append(f"piece {i} of a non-contiguous shard is a copy, not a view")
+            elif k:
+                with torch.no_grad():
+                    t.add_(1000.0)
+                if not torch.equal(shard[pos - start : pos - start + k], torch.arange(pos, pos + k, dtype=torch.float32) + 1000.0):
+                    msgs.append(f"writing through piece {i} of a non-contiguous shard is not visible in the shard")
+            pos += k
+        if pos != end:
+            msgs.append(f"pieces of the non-contiguous shard cover [{start},{pos}) instead of [{start},{end})")
+        return msgs, len(out), tuple(tuple(t.shape) for t in out)
     base = torch.arange(n, dtype=torch.float32)
     shard = base.narrow(0, start, end - start)
     out = fn(shard, torch.Size(shape), start, end)
@@ -165,6 +185,15 @@ def run_unit(unit):
                 except ValueError:
                     pass
                 res["stats"]["must_raise_checked"] += 1
+            # a 0-dimensional shard is not flat either
+            try:
+                fn(torch.zeros(()), torch.Size(shape), 0, 1)
+                res["violations"].append({"case": {"shape": shape, "start": 0, "end": 1, "copy": name, "zerodim": True}, "msg": f"{name}: 0-dimensional shard accepted for shape {shape}", "kind": "zerodim"})
+            except ValueError:
+                pass
+            except Exception as e:
+                res["violations"].append({"case": {"shape": shape, "start": 0, "end": 1, "copy": name, "zerodim": True}, "msg": f"{name}: 0-dimensional shard raised {type(e).__name__} instead of ValueError", "kind": "zerodim"})
+            res["stats"]["must_raise_checked"] += 1
         for start in range(n + 1):
             for end in range(start, n + 1):
                 sigs = {}
@@ -173,6 +202,15 @@ def run_unit(unit):
                         msgs, npieces, sig = check_case(torch, fn, shape, start, end, f, valid)
                     except Exception as e:  # the routine must not raise on valid input
                         msgs, npieces, sig = [f"raised {type(e).__name__}: {e}"], -1, ("raised",)
+                    if not msgs and (start + end) % 3 == 0 and end > start:
+                        try:
+                            m2, _, sig2 = check_case(torch, fn, shape, start, end, f, valid, strided=True)
+                            if sig2 != sig and not m2:
+                                m2 = [f"non-contiguous shard is split into {sig2}, the contiguous one into {sig}"]
+                        except Exception as e:
+                            m2 = [f"non-contiguous flat shard: raised {type(e).__name__}: {e}"]
+                        msgs = m2
+                        res["stats"]["strided_cases"] = res["stats"].get("strided_cases", 0) + 1
                     res["evals"] += 1
                     res["transitions"] += 1
                     sigs[name] = sig
@@ -201,6 +239,14 @@ def replay(case):
     shape = tuple(case["shape"])
     n = prod(shape) if shape else 1
     names = ["fsdp", "hsdp"] if case.get("copy") == "both" else [case["copy"]]
+    if case.get("zerodim"):
+        try:
+            fns[names[0]](torch.zeros(()), torch.Size(shape), 0, 1)
+            return ["0-dimensional shard accepted"]
+        except ValueError:
+            return []
+        except Exception as e:
+            return [f"raised {type(e).__name__}"]
     if case.get("nonflat"):
         try:
             fns[names[0]](torch.zeros(n).view(n // 2 if n % 2 == 0 else n, -1), torch.Size(shape), 0, n)
@@ -212,6 +258,8 @@ def replay(case):
     for name in names:
         try:
             msgs, _, sig = check_case(torch, fns[name], shape, case["start"], case["end"], f, valid)
+            if not msgs and case["end"] > case["start"]:
+                msgs = check_case(torch, fns[name], shape, case["start"], case["end"], f, valid, strided=True)[0]
         except Exception as e:
             msgs, sig = [f"raised {type(e).__name__}: {e}"], ("raised",)
         sigs[name] = sig
